@@ -389,6 +389,13 @@ class Build:
             pass
         return out
 
+    def plugin_reach(self) -> List[str]:
+        out = set()
+        for ev in self.plugin_events():
+            if ev.get("ev") == "reach":
+                out.update(ev.get("functions", []))
+        return sorted(out)
+
     def user_messages(self) -> List[MsgInfo]:
         return [m for m in self.msgs.values() if not m.full_name.startswith(".google.protobuf.")]
 
